@@ -40,7 +40,19 @@ fn near_miss_keys() -> BoxedStrategy<String> {
         "filter\u{0301}", "a", "b", "0", "__proto__", "constructor", "toString", "op", "missing_all", "missing-some", "missingsome", "some ", "non", "alls", "reduce_right", "substring", "concat", "in ", "ln",
     ])
     .prop_map(|s| s.to_string());
-    prop_oneof![2 => mutated, 1 => fixed].prop_filter("must not be an operator name", |k| !gen::OP_NAMES.contains(&k.as_str())).boxed()
+    // names a well-meant extension would pick for a *new* operator (taken from extensions of other JsonLogic
+    // implementations and from common expression languages): the property closes the operator set, so an object keyed
+    // by one of these is a literal
+    let plausible_new = select(vec![
+        "abs", "floor", "ceil", "round", "trunc", "pow", "sqrt", "exp", "xor", "nand", "nor", "not", "eq", "ne", "neq", "gt", "gte", "ge", "lt", "lte", "le", "add", "sub", "mul", "div", "mod", "neg", "sum", "avg", "mean", "count",
+        "len", "length", "size", "keys", "values", "entries", "get", "has", "exists", "typeof", "type", "between", "contains", "includes", "startsWith", "endsWith", "starts_with", "ends_with", "lower", "upper",
+        "toLowerCase", "toUpperCase", "trim", "split", "join", "replace", "match", "regex", "test", "now", "date", "today", "datetime", "timestamp", "random", "uuid", "env", "try", "throw", "let", "set", "each", "eachKey",
+        "sort", "reverse", "unique", "distinct", "flatten", "zip", "first", "last", "slice", "index", "indexOf", "find", "any", "every", "preserve", "literal", "quote", "raw", "!in", "not_in", "is_null", "isnull",
+        "is_empty", "default", "coalesce", "??", "?.", "switch", "case", "cond", "unless", "while", "to_number", "to_string", "number", "string", "bool", "boolean", "int", "float", "parse_int", "parseFloat", "parseInt",
+        "Number", "String", "Boolean", "Array", "Object", "Math.abs", "min_by", "max_by", "group_by", "pluck", "pick", "omit", "apply", "call", "eval", "rule", "ref", "$ref", "$var", "$", "@", "data", "context",
+    ])
+    .prop_map(|s| s.to_string());
+    prop_oneof![4 => mutated, 2 => fixed, 2 => plausible_new].prop_filter("must not be an operator name", |k| !gen::OP_NAMES.contains(&k.as_str())).boxed()
 }
 
 fn dangerous_members() -> gen::VS {
